@@ -751,6 +751,8 @@ def run_jobs(B, templates, jobs, workers):
         for v in r["violations"]:
             if v["signature"] not in {w["signature"] for w in B.violations}:
                 B.violations.append(v)
+            elif os.path.exists(v["replay"]) and v["replay"] not in {w["replay"] for w in B.violations}:
+                os.remove(v["replay"])      # one recorded case per signature: drop the other units' duplicates
 
 
 if __name__ == "__main__":
